@@ -5,9 +5,18 @@ generator KNOWS what it placed where: `items(s)` lists the table / column / func
 specification side, computed from the structure alone), `render(s, lay)` writes SQL text in a chosen layout
 (keyword case, whitespace, redundant parentheses, optional AS), `coq_stmt(s)` is the Coq term.
 
-Name pools are pairwise disjoint (tables, CTE names, columns, functions, aliases, string contents), so any
+Besides queries and DML the grammar has the statements that CARRY a query or an expression without being queries
+(CREATE [OR REPLACE] VIEW, CREATE MATERIALIZED VIEW, CREATE [UNIQUE] INDEX ... WHERE, CREATE TABLE with DEFAULT /
+CHECK, EXPLAIN / DESCRIBE query): the names they define or designate as plain strings (view / index / table name, view column list, index
+keys and indexed table, column definitions, constraint key lists) are NOT items; the names inside the carried query /
+expressions are.  `flat_chain` builds the long flat operator chains (a OR b OR c ...: left-deep trees, one level per
+operand, no nesting in the text).
+
+Name pools are pairwise disjoint (tables, CTE names, columns, functions, aliases, string contents, DDL names), so any
 leak of one class into another result is visible."""
-import random
+import random, sys
+
+sys.setrecursionlimit(max(sys.getrecursionlimit(), 30000))     # flat chains: one level of recursion per operand
 
 TABLES = ["t1", "t2", "t3", "orders", "users", "s1.t4", "s2.t5", "db.s3.t6", "Items"]
 CTES = ["cte1", "cte2", "cte3"]
@@ -18,6 +27,17 @@ STRINGS = ["users", "select", "from_str", "t1", "zz top", "it''s", "x%"]
 TYPES = ["INTEGER", "VARCHAR(10)", "TEXT"]
 NILADIC = ["CURRENT_DATE", "CURRENT_TIMESTAMP", "CURRENT_TIME"]   # emitted only while the parser builds a bare FunctionCall for them
 CMP = ["=", "<>", "<", ">", "<=", ">="]
+# names that DDL statements define / designate (never items)
+VIEWS = ["zv1", "zs.zv2", "Zmv3"]
+INDEXES = ["zi1", "zs.zi2"]
+NEWTABLES = ["zt1", "zs.zt2"]
+ZKEYS = ["zk1", "zk2", "zk3", "Zk4"]
+VIEWCOLS = ["zc1", "zc2", "zc3"]
+COLTYPES = ["INT", "VARCHAR(10)", "TEXT", "DECIMAL(10,2)"]
+PLAIN_CONS = ["NOT NULL", "UNIQUE", "PRIMARY KEY", "NULL"]
+VIEW_OPTS = [("", False, ""), ("OR REPLACE", False, ""), ("TEMPORARY", False, ""), ("", True, ""), ("OR REPLACE", False, "WITH CHECK OPTION"),
+             ("", False, "WITH CASCADED CHECK OPTION"), ("TEMP", True, "WITH LOCAL CHECK OPTION")]
+MVIEW_OPTS = [(False, ""), (True, ""), (False, "WITH DATA"), (False, "WITH NO DATA")]
 JOINS = [("JOIN", "INNER"), ("INNER JOIN", "INNER"), ("LEFT JOIN", "LEFT"), ("LEFT OUTER JOIN", "LEFT"),
          ("RIGHT JOIN", "RIGHT"), ("FULL JOIN", "FULL"), ("CROSS JOIN", "CROSS")]
 
@@ -150,8 +170,60 @@ class Gen:
             s = ("setop", op, op == "UNION" and self.rng.random() < 0.5, s, r)
         return s
 
+    # ---- statements that carry a query / an expression ----
+    def viewcols(self):
+        return VIEWCOLS[:self.rng.choice([0, 0, 1, 2, 3])]
+
+    def create_view(self, sq):
+        return ("createview", self.pick(VIEW_OPTS), self.pick(VIEWS), self.viewcols(), self.query(sq, top=False))
+
+    def create_matview(self, sq):
+        return ("creatematview", self.pick(MVIEW_OPTS), self.pick(VIEWS), self.viewcols(), self.query(sq, top=False))
+
+    def create_index(self, sq):
+        keys = [(k, self.pick(["", "", "ASC", "DESC"])) for k in self.rng.sample(ZKEYS, self.rng.randint(1, 3))]
+        wh = self.cond(sq, 2) if self.rng.random() < 0.8 else None
+        return ("createindex", (self.rng.random() < 0.3, self.rng.random() < 0.3, self.pick(["", "", "btree", "hash"])),
+                self.pick(INDEXES), self.pick(TABLES), keys, wh)
+
+    def create_table(self, sq):
+        cols = []
+        for k in self.rng.sample(ZKEYS, self.rng.randint(1, 3)):
+            cons = []
+            for _ in range(self.rng.choice([0, 1, 1, 2, 3])):
+                r = self.rng.random()
+                if r < 0.35:
+                    cons.append(("plain", self.pick(PLAIN_CONS)))
+                elif r < 0.7:
+                    cons.append(("default", self.atom(sq, 2)))
+                else:
+                    cons.append(("check", self.cond(sq, 1)))
+            cols.append((k, self.pick(COLTYPES), cons))
+        tcs = []
+        for _ in range(self.rng.choice([0, 0, 1, 2])):
+            if self.rng.random() < 0.4:
+                tcs.append(("plain", self.pick(["UNIQUE", "PRIMARY KEY"]), self.rng.sample(ZKEYS, self.rng.randint(1, 2))))
+            else:
+                tcs.append(("check", self.cond(sq, 1)))
+        return ("createtable", (self.rng.random() < 0.2, self.rng.random() < 0.3), self.pick(NEWTABLES), cols, tcs)
+
     def statement(self, sq):
         r = self.rng.random()
+        if r < 0.4:
+            return self.query(sq)
+        r = (r - 0.4) / 0.6
+        if r >= 0.62:
+            r = (r - 0.62) / 0.38
+            if r < 0.32:
+                return self.create_view(sq)
+            if r < 0.5:
+                return self.create_matview(sq)
+            if r < 0.68:
+                return self.create_index(sq)
+            if r < 0.86:
+                return self.create_table(sq)
+            return ("explain", self.pick(["EXPLAIN", "EXPLAIN", "DESCRIBE"]), self.query(sq, top=False))
+        r = r / 0.62
         if r < 0.5:
             return self.query(sq)
         if r < 0.6:
@@ -290,6 +362,21 @@ def items_stmt(s, acc):
                     acc.append(("C", "", col))
                 for v in w[3]:
                     items_expr(v, acc)
+    elif k == "explain":
+        items_stmt(s[2], acc)
+    elif k in ("createview", "creatematview"):
+        items_stmt(s[4], acc)               # the view name is defined, its column list names the view's columns
+    elif k == "createindex":
+        if s[5] is not None:                # index name, indexed table and keys designate (plain strings): not positions
+            items_expr(s[5], acc)
+    elif k == "createtable":
+        for _, _, cons in s[3]:             # the table and its columns are defined
+            for c in cons:
+                if c[0] in ("default", "check"):
+                    items_expr(c[1], acc)
+        for c in s[4]:
+            if c[0] == "check":
+                items_expr(c[1], acc)
     else:
         raise ValueError(k)
     return acc
@@ -332,6 +419,7 @@ class Layout:
 
 PLAIN = Layout()
 LOGIC = ("AND", "OR")
+CHAIN_OPS = ("+", "-", "*", "||")       # left-associative: a + b + c is (a + b) + c
 
 
 def rx(e, L, boolctx=False):
@@ -346,19 +434,23 @@ def rx(e, L, boolctx=False):
         return e[1]
     if k == "bin":
         op = e[1]
+        # a LEFT operand built with the same operator is written without parentheses (a OR b OR c, x + y + z): the
+        # parser reads such a chain in a loop, left-deep, so the tree is the same and nothing nests in the text
         if op.upper() in LOGIC:
-            def side(x):
+            def side(x, left):
                 s = rx(x, L, True)
                 if x[0] == "bin" and x[1].upper() in LOGIC:
-                    return "(" + s + ")"
+                    return s if (left and x[1].upper() == op.upper()) else "(" + s + ")"
                 return L.par(s)
-            return L.join([side(e[2]), L.kw(op), side(e[3])])
-        def opd(x):
+            return L.join([side(e[2], True), L.kw(op), side(e[3], False)])
+        def opd(x, left):
             s = rx(x, L)
+            if left and x[0] == "bin" and x[1] == op and op in CHAIN_OPS:
+                return s
             if x[0] in ("bin", "un", "in", "insub", "between", "exists"):
                 return "(" + s + ")"
             return L.par(s) if x[0] in ("col", "lit", "func", "cast", "niladic") else s
-        return L.join([opd(e[2]), op, opd(e[3])])
+        return L.join([opd(e[2], True), op, opd(e[3], False)])
     if k == "un":
         return L.join([L.kw("NOT"), "(" + rx(e[2], L, True) + ")"])
     if k == "func":
@@ -465,6 +557,44 @@ def rstmt(s, L=PLAIN):
             else:
                 parts.append(L.kw("DELETE"))
         return L.join(parts)
+    if k == "explain":
+        return L.join([L.kw(s[1]), rstmt(s[2], L)])
+    if k == "createview":
+        pre, ifne, post = s[1]
+        return L.join([L.kw("CREATE"), L.kw(pre), L.kw("VIEW"), L.kw("IF NOT EXISTS") if ifne else "",
+                       s[2] + (" (" + ", ".join(s[3]) + ")" if s[3] else ""), L.kw("AS"), rstmt(s[4], L), L.kw(post)])
+    if k == "creatematview":
+        ifne, post = s[1]
+        return L.join([L.kw("CREATE MATERIALIZED VIEW"), L.kw("IF NOT EXISTS") if ifne else "",
+                       s[2] + (" (" + ", ".join(s[3]) + ")" if s[3] else ""), L.kw("AS"), rstmt(s[4], L), L.kw(post)])
+    if k == "createindex":
+        unique, ifne, using = s[1]
+        parts = [L.kw("CREATE"), L.kw("UNIQUE") if unique else "", L.kw("INDEX"), L.kw("IF NOT EXISTS") if ifne else "",
+                 s[2], L.kw("ON"), s[3], (L.kw("USING") + " " + using) if using else "",
+                 "(" + ", ".join(c + (" " + L.kw(d) if d else "") for c, d in s[4]) + ")"]
+        if s[5] is not None:
+            parts += [L.kw("WHERE"), rx(s[5], L, True)]
+        return L.join(parts)
+    if k == "createtable":
+        temp, ifne = s[1]
+        defs = []
+        for n, ty, cons in s[3]:
+            ps = [n, ty]
+            for c in cons:
+                if c[0] == "plain":
+                    ps.append(L.kw(c[1]))
+                elif c[0] == "default":
+                    ps += [L.kw("DEFAULT"), "(" + rx(c[1], L) + ")"]
+                else:
+                    ps += [L.kw("CHECK"), "(" + rx(c[1], L, True) + ")"]
+            defs.append(L.join(ps))
+        for c in s[4]:
+            if c[0] == "plain":
+                defs.append(L.join([L.kw(c[1]), "(" + ", ".join(c[2]) + ")"]))
+            else:
+                defs.append(L.join([L.kw("CHECK"), "(" + rx(c[1], L, True) + ")"]))
+        return L.join([L.kw("CREATE"), L.kw("TEMPORARY") if temp else "", L.kw("TABLE"), L.kw("IF NOT EXISTS") if ifne else "",
+                       s[2], "(" + ", ".join(defs) + ")"])
     raise ValueError(k)
 
 
@@ -588,6 +718,32 @@ def coq_stmt(s):
             else:
                 ws = "(MWDelete %s %s)" % (copt(w[1]), ws)
         return "(MMerge %s %s %s %s)" % (ctref(s[1]), ctref(s[2]), cexpr(s[3]), ws)
+    if k in ("createview", "creatematview"):
+        return "(%s %s [%s] %s)" % ("MCreateView" if k == "createview" else "MCreateMView", ctn(s[2]),
+                                    "; ".join(cs(c) for c in s[3]), coq_stmt(s[4]))
+    if k == "explain":
+        return "(MExplain %s)" % coq_stmt(s[2])
+    if k == "createindex":
+        return "(MCreateIndex %s %s [%s] %s)" % (ctn(s[2]), ctn(s[3]), "; ".join(cname(c) for c, _ in s[4]), copt(s[5]))
+    if k == "createtable":
+        defs = "DNil"
+        for n, ty, cons in reversed(s[3]):
+            cc = "XNil"
+            for c in reversed(cons):
+                if c[0] == "plain":
+                    cc = "(XPlain %s %s)" % (cs(c[1]), cc)
+                elif c[0] == "default":
+                    cc = "(XDefault %s %s)" % (cexpr(c[1]), cc)
+                else:
+                    cc = "(XCheck %s %s)" % (cexpr(c[1]), cc)
+            defs = "(DCons %s %s %s %s)" % (cname(n), cs(ty), cc, defs)
+        tcs = "YNil"
+        for c in reversed(s[4]):
+            if c[0] == "plain":
+                tcs = "(YPlain %s [%s] %s)" % (cs(c[1]), "; ".join(cs(x) for x in c[2]), tcs)
+            else:
+                tcs = "(YCheck %s %s)" % (cexpr(c[1]), tcs)
+        return "(MCreateTable %s %s %s)" % (ctn(s[2]), defs, tcs)
     raise ValueError(k)
 
 
@@ -615,6 +771,47 @@ def derived_join_nest(k):
         s = ("select", [], [(("col", "", "a"), "")], [("tsub", s, "zal%d" % (i % 8 + 1))],
              [("JOIN", "INNER", ("tname", TABLES[i % 5], ""), ("bin", "=", ("col", "", "a"), ("col", "", "b")))], None, [], None, [])
     return s
+
+
+# ------------------------------------------------------------------------------------------------
+# flat operator chains: nothing nests in the text, the tree has one level per operand (the parser reads the chain in
+# a loop and builds it left-deep; no nesting limit applies); what is written in the FIRST operands sits deepest
+
+def _sel(items, frm, wh=None, gb=(), hv=None):
+    return ("select", [], [(e, "") for e in items], list(frm), [], wh, list(gb), hv, [])
+
+
+def left_chain(op, operands):
+    e = operands[0]
+    for x in operands[1:]:
+        e = ("bin", op, e, x)
+    return e
+
+
+def flat_chain(kind, k, head=None):
+    """a statement whose tree is k levels deep without any nesting in its text.  head: the first operands (default:
+    operands with names of their own: a function call, distinct columns, a schema-qualified table)"""
+    c = lambda n: ("col", "", n)
+    n = lambda v: ("lit", str(v), "int", str(v))
+    if kind in ("or", "and"):
+        hd = head or [("bin", "=", ("func", "UPPER" if kind == "and" else "lower", [c("name")]), ("lit", "x", "string", "'x'")),
+                      ("bin", "=", c("k1"), n(1))]
+        tail = [("bin", "=", c("c%d" % (i % 40)), n(i)) for i in range(k)]
+        return _sel([c("a")], [("tname", "t1", "")], wh=left_chain(kind.upper(), hd + tail))
+    if kind in ("plus", "concat"):
+        op = "+" if kind == "plus" else "||"
+        hd = head or [("func", "f" if kind == "plus" else "g", [c("id")]), c("amount")]
+        return _sel([left_chain(op, hd + [c("c%d" % (i % 40)) for i in range(k)])], [("tname", "t1", "")])
+    if kind == "union_all":
+        hd = head or [_sel([c("k1")], [("tname", "s1.t4", "")]), _sel([c("Price")], [("tname", "s2.t5", "")])]
+        s = hd[0]
+        for r in hd[1:] + [_sel([c("c%d" % (i % 40))], [("tname", TABLES[i % 5], "")]) for i in range(k)]:
+            s = ("setop", "UNION", True, s, r)
+        return s
+    raise ValueError(kind)
+
+
+CHAIN_KINDS = ["or", "and", "plus", "concat", "union_all"]
 
 
 def layouts(rng):
